@@ -4,6 +4,11 @@
 (* detector: it is not one of the listed properties.                           *)
 (*  lstart {n, failat, res}     ports {when, busy[]}                           *)
 (*  rt {i, proto, res, type, xidok}   a request sent to listener i over UDP    *)
+(*  dgs {i, proto, kind, len, res, xidok}   a byte string of the given kind     *)
+(*        (0 bytes included) was sent to listener i over UDP, then a request:  *)
+(*        res/xidok are those of the request.  Under lens C01 this is C01's    *)
+(*        availability sentence observed on the real receive loop              *)
+(*        (Lifecycle!Datagram keeps srv[i] = "reading": ServesWhileOpen)       *)
 (*  wait {res}                  Wait() after Close()                           *)
 EXTENDS Integers, Sequences, TLC, Json
 
@@ -27,13 +32,17 @@ TRoundTrip == /\ IsEvent("rt")
               /\ LET e == Trace[l] IN
                  On => (started /\ e.res = "reply" /\ e.xidok /\ e.type = (IF e.proto = 4 THEN 2 ELSE 2))   \* OFFER / ADVERTISE
               /\ UNCHANGED <<n, started>>
+TDatagram == /\ IsEvent("dgs")
+             /\ LET e == Trace[l] IN
+                (On \/ "C01" \in Lens) => (e.res = "reply" /\ e.xidok)     \* later datagrams are still handled
+             /\ UNCHANGED <<n, started>>
 TWait == /\ IsEvent("wait")
          /\ On => Trace[l].res = "returned"                               \* WaitReturns
          /\ UNCHANGED <<n, started>>
 TNote == IsEvent("note") /\ UNCHANGED <<n, started>>
 
 TraceInit == l = 1 /\ n = 0 /\ started = FALSE
-TraceNext == TStart \/ TPorts \/ TRoundTrip \/ TWait \/ TNote
+TraceNext == TStart \/ TPorts \/ TRoundTrip \/ TDatagram \/ TWait \/ TNote
 TraceSpec == TraceInit /\ [][TraceNext]_tvars
 TraceAccepted ==
   LET d == TLCGet("stats").diameter
